@@ -15,7 +15,8 @@ class Job:
     def __init__(s, unit, h, label=None, unwind=6, timeout=120, extra=(), strats=None):
         s.strats = strats
         s.unit = unit; s.h = h; s.label = label or unit.index[h]['conf']
-        s.unwind = unwind; s.timeout = timeout; s.extra = extra
+        # budgets are stated for an otherwise idle 16-core machine; the default scale leaves a factor of two for a loaded one
+        s.unwind = unwind; s.timeout0 = timeout; s.timeout = timeout * float(os.environ.get('VF_TIMEOUT_SCALE', '2')); s.extra = extra
         s.res = None; s.cex = []
 
 
@@ -254,7 +255,7 @@ class Check:
             for k in known:
                 if (not k.get('program') or k['program'] == j.unit.name) and (not k.get('backends') or j.unit.be in k['backends']) \
                         and (not k.get('conf_re') or re.search(k['conf_re'], j.unit.index[j.h]['conf'])):
-                    j2 = Job(j.unit, j.h, unwind=j.unwind, timeout=j.timeout, extra=tuple(j.extra) + ('-DVF_EXCLUDE=(%s)' % k['exclude'],), strats=[j.res.get('strategy', 'n')] + list(j.strats or STRATS))
+                    j2 = Job(j.unit, j.h, unwind=j.unwind, timeout=j.timeout0, extra=tuple(j.extra) + ('-DVF_EXCLUDE=(%s)' % k['exclude'],), strats=[j.res.get('strategy', 'n')] + list(j.strats or STRATS))
                     j2.label = j.label; j.excl = j2; redo.append(j2); break
         if redo:
             log('[%s] %d failed queries in configurations with a registered known finding are proved again with the registered inputs excluded' % (s.prop, len(redo)))
